@@ -646,10 +646,19 @@ def dbg_nested(col, pid, rng, k):
         inner_fn.__name__ = inner_fn.__qualname__ = "dn_inner%d" % k
         inner = dag(inner_fn)
 
-        def outer_fn(x):
-            r = inner(x)
-            do_(r)
-            return g_(r)
+        # the nested call may carry an activation flag: a deactivated inner DAG runs none of its nodes - its debug nodes included
+        act = rng.choice([None, None, True, 0, ""])
+
+        if act is None:
+            def outer_fn(x):
+                r = inner(x)
+                do_(r)
+                return g_(r)
+        else:
+            def outer_fn(x, on=act):
+                r = inner(x, twz_active=on)
+                do_(r)
+                return g_(r)
 
         outer_fn.__name__ = outer_fn.__qualname__ = "dn_outer%d" % k
         outer = dag(is_async=rng.random() < 0.3)(outer_fn)
@@ -661,6 +670,13 @@ def dbg_nested(col, pid, rng, k):
             col.counters["c13_nested_debug_runs"] += 1
             cnt = {nm: sum(1 for e in log if e["kind"] == "FENTER" and e["fn"] == nm) for nm in ("dn_dbg_inner%d" % k, "dn_dbg_outer%d" % k)}
             exp = 1 if flag else 0
+            if act is not None and not act:
+                col.counters["c13_nested_debug_runs_inner_dag_deactivated"] += 1
+                ran_inner = sum(1 for e in log if e["kind"] == "FENTER" and e["fn"] in ("dn_f%d" % k, "dn_dbg_inner%d" % k))
+                if res[0] == "ok" and ran_inner:
+                    col.violation(pid, "deactivated_nested_dag_ran_its_debug_or_production_nodes", dict(
+                        run_debug_nodes=flag, op=op, nested_call_flag=repr(act), entered=cnt), rp)
+                cnt.pop("dn_dbg_inner%d" % k)
             if res[0] != "ok":
                 col.violation(pid, "operation_raised(flag_%s)" % ("on" if flag else "off"), dict(scenario="debug node inside a nested DAG", exc=repr(res[1])[:200]), rp)
             elif any(c != exp for c in cnt.values()):
